@@ -323,6 +323,20 @@ impl CaseIo for SeqCase {
     }
     fn simpler(&self) -> Vec<Self> {
         let mut out = Vec::new();
+        if self.vals.len() > 300 {
+            // very long sequences are shrunk by dropping chunks only (one candidate per value would be a copy of the whole
+            // sequence each: tens of thousands of copies)
+            let n = self.vals.len();
+            for parts in [2usize, 4, 8] {
+                let size = n / parts;
+                for k in 0..parts {
+                    let mut c = self.clone();
+                    c.vals.drain(k * size..(k + 1) * size);
+                    out.push(c);
+                }
+            }
+            return out;
+        }
         for i in 0..self.vals.len() {
             let mut c = self.clone();
             c.vals.remove(i);
@@ -342,8 +356,8 @@ impl CaseIo for SeqCase {
 pub fn judge_seq(c: &SeqCase, st: &mut Stats) -> Verdict {
     st.eval();
     let entry = "several WriteToHeader::write_to calls on one Writer";
-    let kinds: Vec<String> = c.vals.iter().map(|v| shape(&Case { val: v.clone(), prefill_len: 0, prefill_seed: 0, head: None })).collect();
-    let sh = kinds.join("+");
+    let kinds: Vec<String> = c.vals.iter().take(8).map(|v| shape(&Case { val: v.clone(), prefill_len: 0, prefill_seed: 0, head: None })).collect();
+    let sh = if c.vals.len() > 8 { format!("{}+...({} values)", kinds.join("+"), c.vals.len()) } else { kinds.join("+") };
     let fail = |kind: &str, exp: String, obs: String| Err(Fail::new(kind, &sh, entry, exp, obs));
     if c.vals.len() >= 2 {
         st.nontrivial(c.digest());
@@ -652,6 +666,27 @@ pub fn run(r: &mut Runner) -> &'static str {
         }
         None
     };
+    // very many small writes into one writer: whatever the writer counts besides bytes (pieces, calls) must not run out before
+    // the byte limit does
+    let many = |shard: usize, n: usize, st: &mut Stats, _stop: &AtomicBool| -> Option<(SeqCase, Fail)> {
+        let all: Vec<SeqCase> = vec![
+            SeqCase { vals: (0..65_551u32).map(|i| Val::Int { ty: 0, image: (i % 251) as u128 }).collect(), prefill_len: 0, prefill_seed: 1 },
+            SeqCase { vals: (0..32_775u32).map(|i| Val::Int { ty: 1, image: (i * 7 % 65521) as u128 }).collect(), prefill_len: 1, prefill_seed: 3 },
+            SeqCase { vals: (0..21_850u32).map(|i| Val::Tlv { kind: (i % 256) as u8, len: 0, seed: 1 }).collect(), prefill_len: 0, prefill_seed: 5 },
+            SeqCase { vals: (0..65_540u32).map(|i| Val::Bytes { len: 1, seed: i | 1 }).collect(), prefill_len: 11, prefill_seed: 7 },
+            SeqCase { vals: (0..70_000u32).map(|i| if i % 1000 == 999 { Val::Int { ty: 2, image: i as u128 } } else { Val::Bytes { len: 0, seed: 1 } }).collect(), prefill_len: 16, prefill_seed: 9 },
+        ];
+        for (i, c) in all.into_iter().enumerate() {
+            if i % n.max(1) != shard {
+                continue;
+            }
+            if let Err(f) = judge_seq(&c, st) {
+                return Some((c, f));
+            }
+        }
+        None
+    };
+    r.bulk("c20.many-writes", Some("5 sequences of 21 850 .. 70 000 small writes (u8, u16, empty TLVs, one-byte and empty slices) into one writer, up to its byte limit"), &many, &judge_seq);
     r.bulk("c20.after-fixed-part", Some("address blocks of the 4 families written into a writer holding exactly a v2 fixed part (4 version/command bytes x all 256 family/protocol bytes), alone and followed by one byte"), &heads, &judge);
     "exploration"
 }
